@@ -33,7 +33,12 @@ RULE = ('per nn op: relu / leaky_relu (any slope) / selu / tanh / sigmoid, softm
         'constants; the flags arrive at creation, by assignment after creation (freezing or thawing), or — through the layer OBJECT that '
         'holds the operands as nn.Parameter objects — by Module.freeze() / unfreeze() of the layer or of a Sequential around it followed by '
         'assignments to single parameters (weight frozen and bias trainable, and vice versa); the data operand is a leaf or the result of an '
-        'earlier op (everything upstream frozen); every operand gradient is compared after one sweep and after a second one.')
+        'earlier op (everything upstream frozen); every operand gradient is compared after one sweep and after a second one. '
+        'OBJECT REUSE: every layer / activation / pooling / loss class as ONE object called 2-4 times inside one graph before any backward — inputs of '
+        'the same shape again, of another batch size, its own earlier result; train() / eval() switched between the calls; Linear / Conv objects '
+        'keep their parameters; BatchNorm / Dropout objects with the statistics / draws dictated per call, a third of them with two training calls '
+        'of one Dropout object on same-shape inputs —, then backward through the single results (the earliest first or alone, non-uniform upstream '
+        'gradients) and / or their weighted total: each call must back-propagate the function it computed at that call.')
 EXHAUSTIVE = {'quick': False, 'thorough': False}
 ASSUMPTIONS = base.ASSUMPTIONS + ['relu-family inputs are kept away from the kink, pooling inputs distinct (ties are exercised by the model comparison only)']
 TRUSTED_BASE = [t for t in base.TRUSTED_BASE if 'array_formulas' not in t]
@@ -409,6 +414,27 @@ def cases(rng, tier):
                 out.append(c)
     # every non-empty subset of the differentiable operands of every multi-operand op requires grad, the others are constants
     out += mask_cases(rng, tier)
+    out += reuse_cases(rng, tier)
+    return out
+
+
+def reuse_cases(rng, tier):
+    """LAYER OBJECTS called several times in one graph BEFORE any backward (builders, executor and oracle of C03): every layer / activation /
+    pooling / loss class on same-shape and other-shape inputs in train and eval mode (object_case), BatchNorm / Dropout objects with
+    dictated statistics / draws (stateful_case) — a third of those with two training calls of one Dropout object on same-shape inputs —;
+    then backward through the results one by one (the earliest first, or only the earliest) and / or through their total: every call
+    must back-propagate the function IT computed (the mask / statistics in force at that call)"""
+    from props import c03
+    out = []
+    def add(c, name):
+        if c:
+            c.update({'order': None, 'op': name, 'nout': 1, 'malformed': False, 'leaves': [((), [0.0], True)], 'args': []})
+            out.append(c)
+    for op in c03.OBJ_OPS:
+        for _ in range(2 if tier == 'quick' else 60):
+            add(c03.object_case(rng, op), op + '/object-reuse')
+    for k in range(36 if tier == 'quick' else 1500):
+        add(c03.stateful_case(rng, each='do' if k % 3 == 0 else True), 'stateful-layer/object-reuse')
     return out
 
 
@@ -424,6 +450,12 @@ def distribution(cases):
         q[m['mask']] = q.get(m['mask'], 0) + 1
     for k, q in per.items():
         d[k] = ' '.join(f'{m}={n}' for m, n in sorted(q.items()))
+    ru = [c for c in cases if c.get('reuse')]
+    if ru:
+        from props import c03
+        d.update({k: v for k, v in c03.distribution(ru).items() if k.startswith(('object reuse', 'stateful'))})
+        d['object reuse/one Dropout object, two training calls on same-shape inputs, backward through the first result'] = \
+            sum(1 for c in ru if any(k.startswith('do') and 'train' in m and 'train' in m[m.find('train') + 5:] for k, m in (c.get('stateful') or {}).items()) and c['reuse']['earliest result first'])
     return d
 
 
@@ -524,5 +556,8 @@ def search(rng, tier):
             f = oracle(c)
             if f: yield f
     for c in mask_cases(rng, 'quick', [op for op in MASK_OPS if op in gen_ops.OPS_NN]):
+        f = oracle(c)
+        if f: yield f
+    for c in reuse_cases(rng, 'quick'):
         f = oracle(c)
         if f: yield f
